@@ -508,6 +508,20 @@ class IsaComponent(Component):
             prog.append([srcs, f"R{rng.randint(0, 4)}", name, k + 1 + rng.randint(0, 2)])
         case = {"spec": spec, "caps": caps, "prog": prog,
                 "form": rng.choice(["list", "list", "tuple", "items", "generator", "zip"])}
+        if rng.random() < 0.05 and spec:
+            # BEYOND the modelled domain of str.upper: mnemonics with sharp s, micro sign, y-diaeresis (their upper
+            # forms change length or leave Latin-1).  The model is not consulted; the implementation is compared
+            # with the property's wording evaluated by Python's own str.upper / str.lower (oracle stream).
+            odd = ["ma\u00df", "\u00b5op", "\u00ffx", "Stra\u00dfe", "MASS", "\u00b5OP"]
+            for row in rng.sample(spec, min(len(spec), rng.randint(1, 3))):
+                row[0] = rng.choice(odd)
+            names = [r[0] for r in spec]
+            for ins in prog:
+                if rng.random() < 0.6:
+                    n0 = rng.choice(names)
+                    ins[2] = rng.choice([n0, n0.upper(), n0.lower(), n0.capitalize()])
+            case.update(spec=spec, prog=prog, beyond=True, form="list")
+            return case
         if len({c.lower() for c in caps}) == len(caps) and rng.random() < 0.3:
             # the ability set in the form get_abilities returns, after the same table was loaded against a
             # differently spelled twin of it that is still alive (hidden state keyed by equal-but-different keys)
@@ -518,9 +532,43 @@ class IsaComponent(Component):
     def run(self, case):
         import implrun
         impl = implrun.run_isa(case["spec"], case["caps"], case["prog"], case.get("form", "list"), case.get("twin"))
+        if case.get("beyond"):
+            return [[], [], []], impl                      # the model is not consulted
         return [case["spec"], case["caps"], case["prog"]], impl
 
+    @staticmethod
+    def _oracle(case):
+        """C15 as worded, evaluated with Python's own case mappings (used beyond the modelled domain only)"""
+        std = {}
+        for c in case["caps"]:
+            std[c.lower()] = c                                    # SelfIndexSet.create: the last spelling wins
+        isa = {}
+        for mn, cap in case["spec"]:
+            if mn.upper() in isa:                                 # (the row's mnemonic is examined before its capability)
+                return ["err", "DupElemError", mn], None
+            if cap.lower() not in std:
+                return ["err", "UndefElemError", cap], None
+            isa[mn.upper()] = std[cap.lower()]
+        hw = []
+        for srcs, dst, name, line in case["prog"]:
+            if name.upper() not in isa:
+                return ["ok", isa], ["err", "UndefElemError", name]
+            hw.append([sorted(set(srcs)), dst, isa[name.upper()]])
+        return ["ok", isa], ["ok", hw]
+
     def judge(self, case, impl, res):
+        if case.get("beyond"):
+            i = jsonable(impl)
+            w1, w2 = self._oracle(case)
+            g1 = ["ok", dict(map(tuple, i[0][1]))] if str(i[0][0]) == "ok" else ["err", str(i[0][1][0]), i[0][1][-1]]
+            ok = g1[:2] == w1[:2] and (w1[0] == "ok" or str(g1[2]).lower() == str(w1[2]).lower())
+            if ok and w2 is not None:
+                g2 = ["ok", i[1][1]] if str(i[1][0]) == "ok" else ["err", str(i[1][1][0]), i[1][1][1]]
+                ok = g2 == w2
+            return std_report(case, True, [w1, w2], i, {"C15": [ok, "beyond Latin-1 upper: instruction set and compilation as the "
+                                                              "property words them (str.upper / str.lower)"],
+                                                        "C13": [ok, "mnemonics matched ignoring case"]},
+                              tags=["beyond-upper"], nontrivial=True)
         m = jsonable(res["model"][0])
         i = jsonable(impl)
         checks = {}
@@ -601,6 +649,8 @@ class LoaderComponent(Component):
             # a plain chain of 1 000 - 1 500 units, deeper than CPython's default recursion limit.  The loaded
             # processor of such a chain is known in closed form; the model is not consulted (oracle stream).
             n = rng.choice([1001, 1200, 1500])
+            if rng.random() < 0.5:
+                return {"desc": gen.deep_dead_chain(n), "kind": "deep-dead-chain-oracle", "oracle_n": n, "oracle": "dead"}
             return {"desc": gen.plain_deep_chain(n), "kind": "deep-chain-oracle", "oracle_n": n}
         d = gen.valid_desc(rng, nmax) if rng.random() < params.get("valid", 0.6) else gen.rand_desc(rng, nmax)
         kind = "plain"
@@ -633,6 +683,17 @@ class LoaderComponent(Component):
         return [implrun.desc_to_sx(case["desc"]), enc[:2]], {"out": enc, "mutated": mutated}
 
     def judge(self, case, impl, res):
+        if case.get("oracle") == "dead":
+            us = case["desc"]["units"]
+            i = jsonable(impl["out"])
+            c0 = us[0]["capabilities"][0]
+            want = [[[us[0]["name"], 1, [c0], True, True, []]], [[[us[1]["name"], 1, [c0], False, False, []], [us[0]["name"]]]], [], []]
+            shape = len(us) >= 4 and us[1]["capabilities"][0].lower() == c0.lower() != us[-1]["capabilities"][0].lower()
+            ok = (str(i[0]) == "ok" and canon_proc(i[1]) == canon_proc(want)) or not shape
+            verdict = [ok, "a dead-end chain deeper than the recursion limit is trimmed completely: in -> good remains"]
+            return std_report(case, True, ["ok"], i[:1], {"C09": verdict, "C10": verdict, "C11": verdict},
+                              tags=[f"outcome:{'accepted' if str(i[0]) == 'ok' else i[1][0]}", "kind:deep-dead-chain-oracle"],
+                              nontrivial=True)
         if case.get("oracle_n"):
             us = case["desc"]["units"]              # (names may have been re-lettered by the case transformations)
             n = len(us)
@@ -911,9 +972,13 @@ class PipelineComponent(Component):
             if case.get("mode") == "inproc":
                 p = self._run_inproc(yp, ap)
             else:
-                p = subprocess.run(["/venv/bin/python", os.path.join(implrun.REPO, "src", "processor_sim.py"),
-                                    "--processor", yp, ap], capture_output=True, text=True, env=env, timeout=120)
-        out = {"lib": lib, "rc": p.returncode, "stdout": p.stdout}
+                cmd = ["/venv/bin/python", os.path.join(implrun.REPO, "src", "processor_sim.py"), "--processor", yp, ap]
+                p = subprocess.run(cmd, capture_output=True, text=True, env=env, timeout=120)
+                if p.returncode != 0:
+                    # a sub-process can die for reasons that have nothing to do with the code under test (a loaded
+                    # machine, a signal): only a failure that repeats is taken as the command line's answer
+                    p = subprocess.run(cmd, capture_output=True, text=True, env=env, timeout=240)
+        out = {"lib": lib, "rc": p.returncode, "stdout": p.stdout, "stderr_tail": (getattr(p, "stderr", "") or "")[-300:]}
         parsed = parse_table(p.stdout) if p.returncode == 0 else None
         diag = table_to_diag(*parsed) if parsed else None
         out["parsed"] = diag
